@@ -186,30 +186,46 @@ let c17 toks =
             Ev (EvRaw (ps_res_deleted fuel c.cf_dyn c.cf_cnt (bytes_of_tok nm))) :: parse_ev tl
         | _ -> failwith "bad event" in
       let events = parse_ev evtoks in
-      let show_sends (l : ((z list * z list) * z) list) (stamp : int) =
+      let show_sends (l : ((z list * z list) * z) list) (stamp : int) (ev : int) =
         List.map (fun ((tu, tok), v) ->
-            (stamp, Printf.sprintf "%d/%s/%d@%d" (client_of tu) (hex_full tok) (int_of_z v) stamp)) l in
+            (stamp, Printf.sprintf "%d/%s/%d@%d#%d" (client_of tu) (hex_full tok) (int_of_z v) stamp ev)) l in
       (* one process: startup, then events one at a time (to stamp the sends) *)
+      let res_line (r : ps_rsrc) =
+        Printf.sprintf "%s:%d:%d:%s" (hex_full r.rs_name) (if r.rs_observable then 1 else 0)
+          (int_of_z r.rs_observe)
+          (if r.rs_subs = [] then "-" else
+             String.concat "+" (List.map (fun (su : ps_sub) ->
+                 Printf.sprintf "%d/%s/%x" (client_of su.su_tuple) (hex_full su.su_token)
+                   (List.fold_right (fun b a -> a * 256 + int_of_z b) su.su_key 0)) r.rs_subs)) in
+      let dump_mem (m : ps_mem) =
+        let lines = List.sort compare (List.map res_line m) in
+        if lines = [] then "-" else String.concat "|" lines in
+      (* -> (system, ops, sends, event bounds, dump after startup) *)
       let run_process (fs : ps_files) (evs : ps_event list) =
         let s0 = ps_boot fs in
         let (r, s1, ops0, _) = proc_prefix pol (ps_startup app_fn req_fn alloc c m0) s0 in
         match r with
         | Some (Some m) ->
-            let rec go evs m s ops sends =
+            let rec go evs m s ops sends bounds ei =
               match evs with
-              | [] -> (Some m, s, ops, sends)
+              | [] -> (s, ops, sends, List.rev bounds)
               | e :: tl ->
                   let (r, s', o, _) = proc_prefix pol (ps_ev alloc c e m) s in
                   let ops = ops @ o in
                   (match r with
-                   | Some (Some (m', sn)) -> go tl m' s' ops (sends @ show_sends sn (List.length ops))
-                   | _ -> (None, s', ops, sends)) in
-            go evs m s1 ops0 []
-        | _ -> (None, s1, ops0, []) in
-      let seg_text n ops sends =
-        Printf.sprintf "%d|%s|%s" n
+                   | Some (Some (m', sn)) ->
+                       go tl m' s' ops (sends @ show_sends sn (List.length ops) ei)
+                         (List.length ops :: bounds) (ei + 1)
+                   | _ -> (s', ops, sends, List.rev bounds)) in
+            let (s, ops, sends, bounds) = go evs m s1 ops0 [] [List.length ops0] 0 in
+            (s, ops, sends, bounds, dump_mem m)
+        | _ -> (s1, ops0, [], [], "MODEL-FUEL") in
+      let seg_text n ops sends bounds dump =
+        Printf.sprintf "%d|%s|%s|%s|%s" n
           (if ops = [] then "-" else String.concat " " (List.map show_op ops))
-          (if sends = [] then "-" else String.concat "," (List.map snd sends)) in
+          (if sends = [] then "-" else String.concat "," (List.map snd sends))
+          (if bounds = [] then "-" else String.concat "," (List.map string_of_int bounds))
+          dump in
       let take n l = List.filteri (fun i _ -> i < n) l in
       (* restart dump from a set of files *)
       let restart_dump (fs : ps_files) : string =
@@ -217,28 +233,21 @@ let c17 toks =
         let (r, s1, ops0, _) = proc_prefix pol (ps_startup app_fn req_fn alloc c m0) s0 in
         match r with
         | Some (Some m) ->
-            let res_line (r : ps_rsrc) =
-              Printf.sprintf "%s:%d:%d:%s" (hex_full r.rs_name) (if r.rs_observable then 1 else 0)
-                (int_of_z r.rs_observe)
-                (if r.rs_subs = [] then "-" else
-                   String.concat "+" (List.map (fun (su : ps_sub) ->
-                       Printf.sprintf "%d/%s/%x" (client_of su.su_tuple) (hex_full su.su_token)
-                         (List.fold_right (fun b a -> a * 256 + int_of_z b) su.su_key 0)) r.rs_subs)) in
             let lines = List.sort compare (List.map res_line m) in
             let names = List.sort compare
                 (List.map (fun (r : ps_rsrc) -> hex_full r.rs_name)
                    (List.filter (fun (r : ps_rsrc) -> r.rs_subs <> []) m)) in
             let files = files_text s1.ps_fs 3 in
-            let rec notify names m s nops sends =
+            let rec notify names m s nops sends i =
               match names with
               | [] -> sends
               | nm :: tl ->
                   let (r, s', o, _) = proc_prefix pol (ps_ev_notify c (bytes_of_tok nm) m) s in
                   let nops = nops + List.length o in
                   (match r with
-                   | Some (Some (m', sn)) -> notify tl m' s' nops (sends @ show_sends sn nops)
+                   | Some (Some (m', sn)) -> notify tl m' s' nops (sends @ show_sends sn nops i) (i + 1)
                    | _ -> sends) in
-            let sends = notify names m s1 (List.length ops0) [] in
+            let sends = notify names m s1 (List.length ops0) [] 0 in
             Printf.sprintf "%d;%s;%s;%s;%s" (List.length ops0)
               (if ops0 = [] then "-" else String.concat " " (List.map show_op ops0))
               (if lines = [] then "-" else String.concat "|" lines) files
@@ -251,11 +260,11 @@ let c17 toks =
         | WriteFile (n, b) :: tl -> segs ((n, b) :: List.filter (fun (m, _) -> m <> n) fs) [] tl i
         | Ev e :: tl -> segs fs (cur @ [e]) tl i
         | Crash k :: tl ->
-            let (_, s, ops, sends) = run_process fs cur in
+            let (s, ops, sends, bounds, dump) = run_process fs cur in
             let n = List.length ops in
             if i > 0 then Buffer.add_char out ' ';
             if k < 0 || k >= n then begin
-              Buffer.add_string out (Printf.sprintf "seg%d=%s" i (seg_text n ops sends));
+              Buffer.add_string out (Printf.sprintf "seg%d=%s" i (seg_text n ops sends bounds dump));
               segs (ps_crash s).ps_fs [] tl (i + 1)
             end else begin
               (* dies after k calls *)
@@ -263,14 +272,16 @@ let c17 toks =
               let sk = ps_runk pol p (ps_nat_of_int k O) (ps_boot fs) in
               Buffer.add_string out
                 (Printf.sprintf "seg%d=%s" i
-                   (seg_text k (take k ops) (List.filter (fun (st, _) -> st <= k) sends)));
+                   (seg_text k (take k ops) (List.filter (fun (st, _) -> st <= k) sends)
+                      (List.filter (fun b -> b <= k) bounds)
+                      (match bounds with b0 :: _ when b0 <= k -> dump | _ -> "-")));
               segs (ps_crash sk).ps_fs [] tl (i + 1)
             end
         | [] ->
-            let (_, _, ops, sends) = run_process fs cur in
+            let (_, ops, sends, bounds, dump) = run_process fs cur in
             let n = List.length ops in
             if i > 0 then Buffer.add_char out ' ';
-            Buffer.add_string out (Printf.sprintf "seg%d=%s" i (seg_text n ops sends));
+            Buffer.add_string out (Printf.sprintf "seg%d=%s" i (seg_text n ops sends bounds dump));
             if mode = "E" then begin
               let p = ps_process app_fn req_fn alloc c m0 cur in
               let (_, _, _, states) = proc_prefix pol p (ps_boot fs) in
